@@ -62,6 +62,10 @@ var glTargets = []glTarget{
 	{pkg: "service", recv: "", name: "MakeCipherEntry", opaque: map[string]bool{"NewServerSaltGenerator": true}},
 	{pkg: "service", recv: "", name: "findAccessKeyUDP", listElem: "CipherEntry", opaque: map[string]bool{"Unpack": true}, drop: map[string]bool{"debugUDP": true}},
 	{pkg: "service", recv: "", name: "drainErrToString"},
+	{pkg: "service", recv: "natmap", name: "Get"},
+	{pkg: "service", recv: "natmap", name: "set"},
+	{pkg: "service", recv: "natmap", name: "del"},
+	{pkg: "service", recv: "natmap", name: "Close"},
 	{pkg: "service", recv: "packetHandler", name: "validatePacket", opaque: map[string]bool{"SplitAddr": true, "ResolveUDPAddr": true, "ensureConnectionError": true, "String": true}},
 	{pkg: "service", recv: "streamHandler", name: "handleConnection", trace: true, opaque: map[string]bool{"getProxyRequest": true, "proxyConnection": true, "FuncStreamDialer": true, "Copy": true, "absorbProbe": true}},
 	{pkg: "service", recv: "", name: "findEntry", listElem: "CipherEntry", opaque: map[string]bool{"Unpack": true}, drop: map[string]bool{"debugTCP": true}},
@@ -92,6 +96,7 @@ type glFn struct {
 	p       *packages.Package
 	fd      *ast.FuncDecl
 	body    strings.Builder
+	resAs   map[int]types.Type // interface results translated as the pointer they carry
 	extras  []glExtra // additional parameters (now, opaque functions, interface methods)
 	inouts  []string  // names of receiver / pointer parameters that are threaded through
 	retTyp  string
@@ -1853,12 +1858,29 @@ func (f *glFn) stmt(s ast.Stmt, ind int) {
 			f.fail(x, "bare return with named results")
 		}
 		for i, r := range x.Results {
+			rt := rsig.At(i).Type()
+			if t, ok := f.resAs[i]; ok {
+				rt = t
+			}
 			switch {
 			case f.inLit:
 				parts = append(parts, f.expr(r))
-			case isPtrResult(rsig.At(i).Type()) && isNilIdent(r):
+			case isPtrResult(rt) && isNilIdent(r):
 				parts = append(parts, "none")
-			case isPtrResult(rsig.At(i).Type()):
+			case isPtrResult(rt):
+				if ix, ok := r.(*ast.IndexExpr); ok {
+					if mt, ok := f.typeOf(ix.X).Underlying().(*types.Map); ok && isPtrToRepoStruct(mt.Elem()) {
+						// m[k] of a map of pointers: nil when the key is absent
+						parts = append(parts, "(GoMap.get? "+f.expr(ix.X)+" "+f.expr(ix.Index)+")")
+						continue
+					}
+				}
+				if id, ok := r.(*ast.Ident); ok {
+					if flag, ok := f.ptrLocal[f.objOf(id)]; ok {
+						parts = append(parts, "(if "+flag+" then none else some "+f.expr(r)+")") // a pointer variable that may hold nil
+						continue
+					}
+				}
 				parts = append(parts, "(some "+f.expr(r)+")")
 			default:
 				parts = append(parts, f.exprAs(r, rsig.At(i).Type()))
@@ -1902,10 +1924,15 @@ func (f *glFn) stmt(s ast.Stmt, ind int) {
 				return
 			}
 			kid := x.Key.(*ast.Ident)
-			f.emit(ind, "for "+f.idName(kid)+" in (GoMap.keys "+coll+") do")
+			kname := f.idName(kid)
+			if kid.Name == "_" {
+				f.tmp++
+				kname = fmt.Sprintf("k__%d", f.tmp)
+			}
+			f.emit(ind, "for "+kname+" in (GoMap.keys "+coll+") do")
 			if x.Value != nil {
 				vid := x.Value.(*ast.Ident)
-				f.emit(ind+1, "let mut "+f.idName(vid)+" := ((GoMap.get? "+coll+" "+f.idName(kid)+").getD "+f.g.zero(u.Elem(), f.t.strBytes)+")")
+				f.emit(ind+1, "let mut "+f.idName(vid)+" := ((GoMap.get? "+coll+" "+kname+").getD "+f.g.zero(u.Elem(), f.t.strBytes)+")")
 				if isPtrToRepoStruct(u.Elem()) {
 					if obj := f.objOf(vid); obj != nil {
 						f.setAlias(obj, x.X, kid)
@@ -2249,8 +2276,39 @@ func (f *glFn) translate() {
 		}
 	}
 	f.nres = sig.Results().Len()
+	f.resAs = map[int]types.Type{}
+	for i := 0; i < sig.Results().Len(); i++ {
+		if _, isI := sig.Results().At(i).Type().Underlying().(*types.Interface); !isI {
+			continue
+		}
+		var one types.Type
+		okAll := true
+		ast.Inspect(fd.Body, func(n ast.Node) bool {
+			if _, ok := n.(*ast.FuncLit); ok {
+				return false
+			}
+			if r, ok := n.(*ast.ReturnStmt); ok && len(r.Results) == sig.Results().Len() {
+				e := r.Results[i]
+				if isNilIdent(e) {
+					return true
+				}
+				t := f.typeOf(e)
+				if !isPtrToRepoStruct(t) || (one != nil && !types.Identical(one, t)) {
+					okAll = false
+				}
+				one = t
+			}
+			return true
+		})
+		if okAll && one != nil {
+			f.resAs[i] = one // the dynamic value of this interface result is nil or a *T: it is translated as the pointer
+		}
+	}
 	for i := 0; i < sig.Results().Len(); i++ {
 		rt := sig.Results().At(i).Type()
+		if t, ok := f.resAs[i]; ok {
+			rt = t
+		}
 		if isPtrResult(rt) {
 			rets = append(rets, "(Option "+f.leanType(rt)+")") // a pointer result may be nil
 		} else {
